@@ -353,12 +353,16 @@ class FreeEnergy(InterpolatableFunction):
         endpoints = [TMax, TMin]
         for direction in [0, 1]:
             TEnd = endpoints[direction]
+            kwargs = dict(scipyKwargs)
+            if kwargs["first_step"] is not None:
+                # the first step cannot be longer than the distance to the end
+                kwargs["first_step"] = min(kwargs["first_step"], abs(TEnd - T0)) or None
             ode = scipyint.RK45(
                 odeFunction,
                 T0,
                 phase0,
                 TEnd,
-                **scipyKwargs,
+                **kwargs,
             )
             while ode.status == "running":
                 try:
